@@ -192,3 +192,15 @@ pub fn push_coeff(bits: &mut Vec<bool>, v: i32) {
     let a = v.unsigned_abs();
     push_coeff_raw(bits, v < 0, a & 127, (a >> 7) as usize);
 }
+
+/// Harness-side packing of coefficients into a compressed body (Algorithm 17 layout), used to BUILD test inputs
+/// independently of the library's own `compress` (which is code under test).  Panics only if the harness asks
+/// for something that cannot fit.
+pub fn pack_coeffs(v: &[i16], len: usize) -> Vec<u8> {
+    let mut bits = vec![];
+    for &c in v {
+        push_coeff(&mut bits, c as i32);
+    }
+    assert!(bits.len() <= 8 * len, "harness: body does not fit");
+    bits_to_bytes(&bits, len)
+}
